@@ -173,6 +173,9 @@ class Unit:
     def before_container_store(self, ip, obj, idx, v):
         pass
 
+    def after_field_store(self, ip, cn, attr, obj):
+        """ghost code attached to a store into a declared field of the real code (default: none)"""
+
     def abstract_stmt(self, ip, stmt, env, f):
         """a unit may replace a statement by a stated abstraction (returns True when it did); default: never"""
         return False
